@@ -514,6 +514,16 @@ pub fn gen_c15(ctx: &Ctx, rng: &mut Rng, out: &mut Vec<String>) {
         if t || i % 3 == 0 { out.push(format!("io.npload\t{}\t{}", nats(&s), bits(&data))); }
     }
     for s in [vec![0usize], vec![2, 0], vec![0, 3, 1], vec![1], vec![4294967296usize, 0]] { out.push(format!("io.npyrt\t{}\t-", nats(&s))); }
+    // every value count 1..=70 and every power of two up to 2^14 with its neighbours: block / buffer / chunk sizes of any writer
+    {
+        let mut counts: Vec<usize> = (1..=70).collect();
+        for e in 7..=14u32 { for dlt in [-1i64, 0, 1] { counts.push((((1u64 << e) as i64) + dlt) as usize); } }
+        for (i, n) in counts.into_iter().enumerate() {
+            if !t && n > 70 && i % 2 == 1 && n != 8193 && n != 4097 { continue; }
+            let data: Vec<f64> = (0..n).map(|j| ((j * 7 + i) % 251) as f64 * 0.5).collect();
+            out.push(format!("io.npyrt\t{n}\t{}", bits(&data)));
+        }
+    }
     // more values than any internal block or buffer of the writer is likely to hold, in counts that are not a multiple of a power of two
     for (i, s) in [vec![101usize, 101], vec![21, 21, 21], vec![8193], vec![8192], vec![16385], vec![3, 4099]].into_iter().enumerate() {
         let n: usize = s.iter().product();
